@@ -14,7 +14,7 @@ import sys
 import time
 
 VERIF = os.path.dirname(os.path.dirname(os.path.abspath(__file__)))
-CHECKS = ["C07", "C11", "C12", "C15", "C16", "C18"]
+CHECKS = os.environ.get("RECHECK", "C07,C11,C12,C15,C16,C18").split(",")  # RECHECK=C07 refreshes one column only
 
 
 def result_name(sid):
@@ -49,7 +49,7 @@ def main():
             lines = r.stdout.split("\n")
             viol = [l for l in lines if l.startswith("VIOLATION") or "class:" in l]
             checks[c] = {"exit": r.returncode, "violations": viol, "wall_s": round(time.time() - t0, 1), "tail": (r.stdout.strip().split("\n") or [""])[-1][:400]}
-        rec["checks"] = checks
+        rec.setdefault("checks", {}).update(checks)
         rec["checks_rerun_at"] = subprocess.run(["git", "-C", VERIF, "rev-parse", "--short", "HEAD"], capture_output=True, text=True).stdout.strip() or "snapshot"
         json.dump(rec, open(os.path.join(out, name + ".json"), "w"))
         print(sid, {c: v["exit"] for c, v in checks.items()}, flush=True)
